@@ -32,7 +32,7 @@ IncsL == IF Tier = "quick" THEN {ROne, Q(1,2), I(2)} ELSE {RZero, ROne, Q(1,2), 
 
 QuickShells == { [model |-> m, m1 |-> 3, m2 |-> 1, n2 |-> 1] :
                     m \in {"clpt_donnell_bc1", "clpt_donnell_bc2", "clpt_donnell_bc3", "clpt_donnell_bc4", "fsdt_donnell_bc1"} }
-               \cup { [model |-> m, m1 |-> 2, m2 |-> 2, n2 |-> 2] : m \in {"clpt_sanders_bc2", "fsdt_donnell_bc4"} }
+               \cup { [model |-> m, m1 |-> 2, m2 |-> 2, n2 |-> 2] : m \in {"fsdt_donnell_bc4"} }
 FullShells == { [model |-> m, m1 |-> s[1], m2 |-> s[2], n2 |-> s[3]] :
                     m \in ModelNames, s \in {<<3,1,1>>, <<2,2,2>>, <<4,2,3>>} }
 ShellsL == IF Tier = "quick" THEN QuickShells ELSE FullShells
@@ -51,7 +51,8 @@ MkCase(sh, g, a, fo, po, ao, to, bo) ==
                 T |-> tr.T, Tinc |-> tr.Tinc]]
 Cases == { MkCase(sh, g, a, c[1], c[2], 1, 1, 1) : sh \in ShellsL, g \in GeosL, a \in AnglesL, c \in Combo }
          \cup { MkCase(sh, g, a, fp[1], fp[2], t[1], t[2], t[3]) :
-                  sh \in ShellsL, g \in GeosL, a \in AnglesL, t \in ABT, fp \in {<<1,1>>, <<4,4>>} }
+                  sh \in ShellsL, g \in GeosL, a \in AnglesL, t \in ABT,
+                  fp \in IF Tier = "quick" THEN {<<4,4>>} ELSE {<<1,1>>, <<4,4>>} }
 
 Req(inc) == [sh |-> shell, geo |-> obj.geo, ang |-> obj.ang, Fc |-> obj.Fc, nxxIn |-> obj.nxxIn, xiLA |-> obj.xiLA,
              pdC |-> obj.pdC, pdT |-> obj.pdT, uTM |-> obj.uTM, thetaTdeg |-> obj.thetaTdeg, tanBeta |-> obj.tanBeta,
